@@ -5,8 +5,7 @@ J=${1:-6}
 cd "$(dirname "$0")/.."
 ls -d seeded/C*-* | sort -V | xargs -P "$J" -I{} sh -c '
   d={}; id=$(basename $d); P=${id%%-*}; CHK=$P
-  # a change filed under one property may be in code another property's check owns (meta.json: confirmed_by_integrator.check)
-  CHK=$(python3 -c "import json,sys; print(json.load(open(sys.argv[1])).get(\"confirmed_by_integrator\",{}).get(\"check\",sys.argv[2]))" $d/meta.json $P)
+  CHK=$(python3 tools/seed_check.py $d)
   NODEMO=1 tools/mt.sh rg-$id $d $CHK > /var/tmp/mt/rg-$id.log 2>&1
   if grep -q "^VIOLATION" /var/tmp/mt/rg-$id.log; then echo "$id caught $(grep -m1 "  key:" /var/tmp/mt/rg-$id.log)"; else echo "$id MISSED"; fi
   git -C /repo worktree remove --force /var/tmp/mt/rg-$id/wt >/dev/null 2>&1; rm -rf /var/tmp/mt/rg-$id
